@@ -229,6 +229,7 @@ func c13(run *ev.Run, tier string) {
 	nrand := ncases(100, 2000, tier)
 	run.Rule = "part 1 (exhaustive): every leaf of nfpm.Overridables (found by reflection over the yaml tags) x every format f x {set only in f's override block, set only in another format's block, set in both with different values} x {base value set, base value empty}: a configuration is marshalled from nfpm's own types, parsed, and Config.Get(g) for ALL five formats g is compared leaf-by-leaf with a reflective reference merge of an untouched parse; base settings and override blocks must be unchanged afterwards. part 2: random combinations of leaves in several override blocks, every Get order for a sample, and packages built to confirm overridden relations and per-packager content entries in the decoded output. part 3: Validate must reject override keys without a registered packager. part 2c-2g: all formats built from one parsed configuration in sampled / all orders vs fresh-parse builds; override lists whose items expand to nothing; empty key_id in an override; Get called three times for one format whose override block has its own tagged contents; a signing callback set on the base settings; nil override blocks; CLI: conventional file name with {format}.arch set in an override, other spellings of the packager name. non-trivial = configuration in which at least one override block changes at least one leaf; distinct = (leaf, format, placement, base) / random combination"
 	run.Rule += "; the nfpm binary with the packager named and guessed over one configuration"
+	run.Rule += "; part 2a: packages built from base settings the caller fills in itself (no Config.Get) with entries addressed to every format, rpm-only types addressed elsewhere and a deb-changelog-typed entry addressed to rpm"
 	run.SetExhaustive(true)
 	leaves := overridableLeaves()
 	var names []string
